@@ -4109,6 +4109,11 @@ func getValueAsString(fieldToValue map[string]sutils.CValueEnclosure, field stri
 		return "", utils.NewErrorWithCode(utils.NIL_VALUE_ERR, fmt.Errorf("getValueAsString: Missing field %v", field))
 	}
 
+	// a record of a segment that does not have the column carries a null enclosure
+	if enclosure.IsNull() {
+		return "", utils.NewErrorWithCode(utils.NIL_VALUE_ERR, fmt.Errorf("getValueAsString: field %v is null", field))
+	}
+
 	return enclosure.GetString()
 }
 
